@@ -457,7 +457,11 @@ var script = []hist.Step{
 	{Op: "lfsckpt"},
 	{Op: "wtx", Frames: [][2]uint64{{2, 82}}, NewSize: 3},
 	{Op: "drop"},
-	{Op: "rtx", Writes: map[uint32]uint64{1: 91, 2: 92}, NewSize: 2}, // recreated
+	{Op: "rtx", Writes: map[uint32]uint64{1: 91, 2: 92}, NewSize: 2, Spill: 2}, // recreated; pages spilled before page 1 is written
+	{Op: "rtx", Writes: map[uint32]uint64{2: 102, 3: 103}, NewSize: 3},
+	{Op: "drop"},
+	{Op: "rtx", Writes: map[uint32]uint64{1: 111, 2: 112, 3: 113}, NewSize: 3, Spill: 1, Outcome: int(lfs.RollbackAfterWrite)}, // recreation rolled back after a spill
+	{Op: "rtx", Writes: map[uint32]uint64{1: 121}, NewSize: 1, JMode: 1},
 }
 
 // script2: a transaction whose journal is synced after 64 records and continues in a second segment: with 512-byte
